@@ -164,6 +164,8 @@ def run_functions(report, qualnames, tier="quick", bounded_limit=None, monitor=T
     for q in qualnames:
         nf = len(_engine().contracts[q].get("forks", [{}])) if not callable(_engine().contracts[q].get("forks")) else 1
         n = min(NCPU, nf // 48) if nf >= 96 else 1
+        if _engine().contracts[q].get("slice_forks"):
+            n = min(NCPU, nf)
         tasks += [q] if n <= 1 else [(q, i, n) for i in range(n)]
     if len(tasks) > 2:
         with cf.ProcessPoolExecutor(max_workers=min(NCPU, len(tasks))) as ex:
